@@ -153,12 +153,99 @@ func concBody(c conc) func() string {
 	}
 }
 
+// two registrations of the same pipeline id racing, one or both with DenyOverwrite
+type denySc struct {
+	Name      string
+	PolA      string // policy of registration A (version 2)
+	PolB      string // policy of registration B (version 3)
+	Existing  bool   // version 1 registered (AllowOverwrite) beforehand
+	Bound     int
+}
+
+func denyScenarios(tier string) []denySc {
+	b := 3
+	if tier == "thorough" {
+		b = 4
+	}
+	var out []denySc
+	for _, ex := range []bool{false, true} {
+		for _, pa := range []string{"allow", "deny"} {
+			out = append(out, denySc{PolA: pa, PolB: "deny", Existing: ex, Bound: b})
+		}
+	}
+	for i := range out {
+		out[i].Name = fmt.Sprintf("concurrent RegisterPipeline(t1/p1 v2 %s) || RegisterPipeline(t1/p1 v3 %s), existing v1=%v", out[i].PolA, out[i].PolB, out[i].Existing)
+	}
+	return out
+}
+
+func denyBody(c denySc) func() string {
+	return func() string {
+		log := &hn.Log{}
+		b, _ := el.NewBroker()
+		b.RegisterNode("m", hn.NewNode(log, "m", el.NodeTypeFormatter, hn.Pass, nil).AsNode())
+		for v := 1; v <= 3; v++ {
+			b.RegisterNode(el.NodeID(fmt.Sprintf("s%d", v)), hn.NewNode(log, fmt.Sprintf("s%d", v), el.NodeTypeSink, hn.Drop, nil).AsNode())
+		}
+		pipe := func(v int, pol string) error {
+			p := el.AllowOverwrite
+			if pol == "deny" {
+				p = el.DenyOverwrite
+			}
+			return b.RegisterPipeline(el.Pipeline{PipelineID: "p1", EventType: "t1", NodeIDs: []el.NodeID{"m", el.NodeID(fmt.Sprintf("s%d", v))}}, el.WithPipelineRegistrationPolicy(p))
+		}
+		if c.Existing {
+			if err := pipe(1, "allow"); err != nil {
+				vrt.Fail("fixture: %v", err)
+			}
+		}
+		clk := &stamps{}
+		var ia, ib ival
+		var ea, eb error
+		vrt.GoNamed("regA", func() { ia.call = clk.tick(); ea = pipe(2, c.PolA); ia.ret = clk.tick() })
+		vrt.GoNamed("regB", func() { ib.call = clk.tick(); eb = pipe(3, c.PolB); ib.ret = clk.tick() })
+		vrt.Join()
+		// which version is live
+		payload := new(int)
+		b.Send(context.Background(), "t1", payload)
+		live := ""
+		for _, inv := range log.Invs() {
+			if inv.InPay == any(payload) && strings.HasPrefix(inv.Node, "s") {
+				live += inv.Node
+			}
+		}
+		denyA, denyB := c.PolA == "deny" && ea == nil, c.PolB == "deny" && eb == nil
+		switch {
+		case denyA && denyB:
+			vrt.Fail("two registrations of pipeline t1/p1 with DenyOverwrite both succeeded")
+		case denyB && live != "s3":
+			vrt.Fail("the DenyOverwrite registration (v3) succeeded but the live version is %q: it was overwritten (A: err=%v [%d,%d], B: [%d,%d])", live, ea, ia.call, ia.ret, ib.call, ib.ret)
+		case denyA && live != "s2":
+			vrt.Fail("the DenyOverwrite registration (v2) succeeded but the live version is %q: it was overwritten", live)
+		case denyB && ea == nil && ia.call > ib.ret:
+			vrt.Fail("registration A was called after the DenyOverwrite registration had returned, yet it succeeded")
+		case ea != nil && eb != nil:
+			vrt.Fail("both registrations failed: %v / %v", ea, eb)
+		}
+		// DenyOverwrite is sticky: a later registration fails
+		if denyA || denyB {
+			if err := pipe(1, "allow"); err == nil {
+				vrt.Fail("a registration after a successful DenyOverwrite registration succeeded")
+			}
+		}
+		return fmt.Sprintf("A=%v B=%v live=%s", ea == nil, eb == nil, live)
+	}
+}
+
 func main() {
 	hk.Main(&hk.Check{
 		ID: prop,
 		Scenarios: func(tier string) []string {
 			n := []string{"BFS policy-sequences"}
 			for _, c := range concScenarios(tier) {
+				n = append(n, c.Name)
+			}
+			for _, c := range denyScenarios(tier) {
 				n = append(n, c.Name)
 			}
 			return n
@@ -168,11 +255,16 @@ func main() {
 			if job.Scn == 0 {
 				return seqmc.RunJob(harness, tier, job, deadline)
 			}
+			if k := job.Scn - 1; k >= len(concScenarios(tier)) {
+				d := denyScenarios(tier)[k-len(concScenarios(tier))]
+				ex := &vrt.Explorer{Bound: d.Bound, Body: denyBody(d)}
+				return hk.ExploreJob(prop, job, deadline, ex, d.Name)
+			}
 			c := concScenarios(tier)[job.Scn-1]
 			ex := &vrt.Explorer{Bound: c.Bound, FreeBound: c.FreeBound, Permute: true, Body: concBody(c)}
 			return hk.ExploreJob(prop, job, deadline, ex, c.Name)
 		},
-		Rule: "(sequential) BFS over all histories up to the depth bound of RegisterNode / RegisterPipeline with policies {default, AllowOverwrite, DenyOverwrite, invalid} for node ids n2,n3 and pipeline id p1 in two event types, interleaved with RemoveNode / RemovePipeline / RemovePipelineAndNodes and probe Sends; the reference model keeps the policy with the live registration; every call's error and every probe's deliveries (object identity: which registration generation of a node id a pipeline uses) are compared. (concurrent) 1-2 overwrites of t1/p1 racing with 1-2 Sends, all schedules within the preemption bound and all sync.Map.Range orders: every Send is processed by exactly one version, never a version registered after the Send ended, never a superseded version once the overwriting call had returned.",
+		Rule: "(sequential) BFS over all histories up to the depth bound of RegisterNode / RegisterPipeline with policies {default, AllowOverwrite, DenyOverwrite, invalid} for node ids n2,n3 and pipeline id p1 in two event types, interleaved with RemoveNode / RemovePipeline / RemovePipelineAndNodes and probe Sends; the reference model keeps the policy with the live registration; every call's error and every probe's deliveries (object identity: which registration generation of a node id a pipeline uses) are compared. (concurrent) 1-2 overwrites of t1/p1 racing with 1-2 Sends, all schedules within the preemption bound and all sync.Map.Range orders: every Send is processed by exactly one version, never a version registered after the Send ended, never a superseded version once the overwriting call had returned; two registrations of one pipeline id racing, one or both with DenyOverwrite (with and without an existing registration): never two successful Deny registrations, a successful Deny registration is the live version afterwards and stays sticky.",
 		Assumptions:    []string{"depth 6 (quick) / 8 (thorough); preemption bound 1-3 depending on the thread count"},
 		QuickBudget:    150 * time.Second,
 		ThoroughBudget: 45 * time.Minute,
